@@ -11,14 +11,14 @@
  * @prep sed huf_cut1.c huf_cut.c /\x2a\s+find\s+maxWeight\s+\x2a/.*?HUF_fillDTableX2\(dt,.*?tableLog\+1\); ;
  * @link lib/common/entropy_common.c lib/common/fse_decompress.c lib/common/error_private.c lib/common/zstd_common.c
  * @mem native
- * @cbmc --unwind 15
+ * @cbmc --unwind 30
  * @timeout 900
  * @memgb 12
  * @instance accept12 backend=cadical -DNW=12 -DCAP=12
  * @instance accept13 backend=cadical -DNW=13 -DCAP=12
  * @instance accept3 -DNW=3 -DCAP=12
  * @instance accept16 tier=thorough backend=cadical timeout=3000 memgb=20 -DNW=16 -DCAP=12
- * @instance accept24 tier=thorough backend=cadical timeout=3000 memgb=20 cbmc="--unwind 27" -DNW=24 -DCAP=12
+ * @instance accept24 tier=thorough backend=cadical timeout=3000 memgb=20 -DNW=24 -DCAP=12
  */
 #include "v.h"
 #include <string.h>
